@@ -26,6 +26,11 @@ func volumeVariants() []treeVariant {
 		{"externalLabels", map[string]any{"external": true, "labels": map[string]any{"a": "b"}}},
 		{"externalOpts", map[string]any{"external": true, "name": "n", "driver_opts": map[string]any{}}},
 		{"externalX", map[string]any{"external": true, "x": 1}},
+		// not yet cast (SkipInterpolation): the YAML 1.1 words and quoted text arrive as strings
+		{"externalYesDriver", map[string]any{"external": "yes", "driver": "local"}},
+		{"externalOnLabels", map[string]any{"external": "On", "labels": map[string]any{"a": "b"}}},
+		{"externalNoDriver", map[string]any{"external": "No", "driver": "local"}},
+		{"externalQuotedTrueName", map[string]any{"external": "true", "name": "n"}},
 	}
 }
 
